@@ -147,13 +147,13 @@ func (c *Container) addHandler(service *WebService, serveMux *http.ServeMux) boo
 }
 
 func (c *Container) Remove(ws *WebService) error {
+	c.webServicesLock.Lock()
+	defer c.webServicesLock.Unlock()
 	if c.ServeMux == http.DefaultServeMux {
 		errMsg := fmt.Sprintf("cannot remove a WebService from a Container using the DefaultServeMux: ['%v']", ws)
 		log.Print(errMsg)
 		return errors.New(errMsg)
 	}
-	c.webServicesLock.Lock()
-	defer c.webServicesLock.Unlock()
 	// build a new ServeMux and re-register all WebServices
 	newServeMux := http.NewServeMux()
 	newServices := []*WebService{}
@@ -323,16 +323,21 @@ func fixedPrefixPath(pathspec string) string {
 
 // ServeHTTP implements net/http.Handler therefore a Container can be a Handler in a http.Server
 func (c *Container) ServeHTTP(httpWriter http.ResponseWriter, httpRequest *http.Request) {
+	// Remove replaces the ServeMux
+	c.webServicesLock.RLock()
+	serveMux := c.ServeMux
+	c.webServicesLock.RUnlock()
+
 	// Skip, if content encoding is disabled
 	if !c.contentEncodingEnabled {
-		c.ServeMux.ServeHTTP(httpWriter, httpRequest)
+		serveMux.ServeHTTP(httpWriter, httpRequest)
 		return
 	}
 	// content encoding is enabled
 
 	// Skip, if httpWriter is already an CompressingResponseWriter
 	if _, ok := httpWriter.(*CompressingResponseWriter); ok {
-		c.ServeMux.ServeHTTP(httpWriter, httpRequest)
+		serveMux.ServeHTTP(httpWriter, httpRequest)
 		return
 	}
 
@@ -355,7 +360,7 @@ func (c *Container) ServeHTTP(httpWriter http.ResponseWriter, httpRequest *http.
 		}
 	}
 
-	c.ServeMux.ServeHTTP(writer, httpRequest)
+	serveMux.ServeHTTP(writer, httpRequest)
 }
 
 // Handle registers the handler for the given pattern. If a handler already exists for pattern, Handle panics.
